@@ -43,6 +43,19 @@ CHECKS = {
         'to the stored post-operation value, that an Eq-equal assignment leaves the stored bits untouched, and that value() equals a shadow variable updated with the same C++ operator.',
    note=TB + 'value ranges bounded so that the documented no-overflow precondition holds; float *= and /= not encoded; string instance uses the fixed-capacity model string with concrete operand lengths.',
    technique='SAT-based bounded model checking (CBMC) per operator-sequence cube of clang-lowered Observable code, symbolic operands', design='4/C16'),
+ 'C06': dict(
+   text='Bounded model checking of the real SubjectRouter.h/.cpp, RoutingKey*, RoutingLevelView and the Subject stack (and the same harness on ConcurrentSubjectRouter from one thread): for every cube (router class, signature '
+        '(), (int), (const S&), (S by value), <=2 subscription keys of depth <=2 over {a,b}, every pattern structure of depth <=2 over {a, b, regex, regex, .*}, optional unsubscribe/invalidate) a CBMC query decides over '
+        'every regex truth table ("any regex") and argument value that exactly the matching observers are invoked once with the passed value (intact copies for by-value class types) and that the return value counts '
+        'the matched keys holding a subject. Type-mismatched indirect calls (Subject<T> used as Subject<T&>) are assertions. Counterexamples replayed natively (real std::regex built from the truth table, UBSan/ASan).',
+   note=TB + 'std::regex is an arbitrary predicate over a finite name universe; model map/vector/variant/string; key depth, names and subscription count bounded.',
+   technique='SAT-based bounded model checking (CBMC) per (subscriptions, pattern-structure) cube of clang-lowered router code; symbolic regex truth table', design='4/C06'),
+ 'C13': dict(
+   text='Same encoding as C06 with shrink/exists/depth: for every cube (<=2 subscriptions of which one may be dead by unsubscribe or lazy removal, shrink pattern with a concrete truth table for its regexes, probe pattern with '
+        'symbolic regexes) CBMC decides that delivery to the probe is identical before and after shrink, that exists() on every concrete key equals a prefix-closed model of the stored keys in which shrink erases, bottom-up, '
+        'exactly the empty children of nodes visited by the pattern (never a key with a live subscription at or below), that a full-depth wildcard shrink leaves no dead branch, and that exists(pattern) and depth() agree with the model.',
+   note=TB + 'shrink-pattern regex semantics enumerated (they change the heap shape); probe regex semantics symbolic; depth <= 2, names {a,b}.',
+   technique='SAT-based bounded model checking (CBMC) per (subscriptions, dead set, shrink pattern) cube; model of stored keys as oracle', design='4/C13'),
 }
 REASON_WIP = 'check not built yet (work in progress, see DESIGN.md section 7)'
 m = {"version": 1, "setup_cmd": "./vf setup",
